@@ -103,6 +103,69 @@ theorem wStep_frame {s s' : State} {ret : Option Ret} (h : wStep s = some (s', r
     exact ⟨by simp [storeOff], fun _ _ => by simp [storeOff], fun _ => by simp [storeOff], ⟨[], by simp [storeOff]⟩,
       ⟨_, by simp [storeOff]; rfl⟩, by simp [storeOff]⟩
 
+/-- a writer step either leaves both lists alone or keeps holding what it held -/
+theorem wStep_side_or_holds {s s' : State} {ret : Option Ret} (h : wStep s = some (s', ret)) :
+    (∀ x, s'.side x = s.side x) ∨ s'.w.holds = s.w.holds := by
+  unfold wStep at h
+  split at h
+  · cases h
+  · injection h with h; injection h with h _; subst h; exact Or.inl fun _ => rfl
+  · injection h with h; injection h with h _; subst h; exact Or.inl fun _ => rfl
+  · split at h
+    · cases h
+    · injection h with h; injection h with h _; subst h; exact Or.inl fun _ => by simp [lock1]
+  · rename_i w m rest nx r g0 hw
+    injection h with h; injection h with h _; subst h
+    unfold muStep; split
+    · exact Or.inr (by simp [hw, WPc.holds])
+    · exact Or.inl fun _ => by simp
+  · rename_i w nx r g0 hw
+    injection h with h
+    cases nx <;> (simp only [unlock1, Prod.mk.injEq] at h; obtain ⟨rfl, _⟩ := h
+                  exact Or.inl fun _ => by simp)
+  · injection h with h; injection h with h _; subst h; exact Or.inl fun _ => by simp [swapOff]
+  · split at h
+    · cases h
+    · injection h with h; injection h with h _; subst h; exact Or.inl fun _ => by simp [lock2]
+  · rename_i r m rest rt g0 hw
+    injection h with h; injection h with h _; subst h
+    unfold muStep; split
+    · exact Or.inr (by simp [hw, WPc.holds])
+    · exact Or.inl fun _ => by simp
+  · injection h with h; injection h with h _; subst h; exact Or.inl fun _ => by simp
+  · injection h with h; injection h with h _; subst h; exact Or.inl fun _ => by simp [storeOff]
+
+/-- a list the writer has just released is the newest produced table -/
+theorem wStep_released_top {s s' : State} {ret : Option Ret} (hT : TInv s)
+    (h : wStep s = some (s', ret)) {x : Bool} (h1 : s.w.holds = some x) (h2 : s'.w.holds ≠ some x) :
+    s.side x = top s.hist := by
+  obtain ⟨_, _, hq⟩ := hT
+  cases hpc : s.w with
+  | mu1 w todo nx r g0 =>
+    rw [hpc] at hq h1
+    simp only [WPc.holds, Option.some.injEq] at h1; subst h1
+    cases todo with
+    | nil =>
+      cases nx with
+      | none => exact hq.1 w
+      | some p2 => simpa [runProg] using hq.2.2.1
+    | cons m rest =>
+      exfalso
+      simp only [wStep, hpc] at h
+      injection h with h; injection h with h _; subst h
+      apply h2; unfold muStep; split <;> simp [WPc.holds]
+  | mu2 r todo rt g0 =>
+    rw [hpc] at hq h1
+    simp only [WPc.holds, Option.some.injEq] at h1; subst h1
+    cases todo with
+    | nil => simpa [runProg] using hq.2.2.2.1
+    | cons m rest =>
+      exfalso
+      simp only [wStep, hpc] at h
+      injection h with h; injection h with h _; subst h
+      apply h2; unfold muStep; split <;> simp [WPc.holds]
+  | _ => rw [hpc] at h1; simp [WPc.holds] at h1
+
 /-! ## distinct ids -/
 
 def NInv (s : State) : Prop := ∀ l ∈ s.hist, (ids l).Nodup
